@@ -263,4 +263,31 @@ def replay(ctx, data):
 
 
 def correspond(ctx):
-    pass
+    """generated mesh kernels (gen/G12_mesh.v, evaluated by vm_compute with the executable sqrt) against the implementation:
+    Mesh3D._quad_centroid / _get_tri_area on plane-embedded quads, Mesh2D._get_area"""
+    rng = ctx.rng
+    cases, meta = [], []
+    for _ in range(ctx.n(60, 400)):
+        # convex quad from a jittered rectangle
+        w, h = G.dy(rng.uniform(1, 9)), G.dy(rng.uniform(1, 9)); m = 0.3 * min(w, h)
+        ox, oy = G.rpt2(rng, 20)
+        q2 = [(G.dy(ox + a + rng.uniform(-m, m)), G.dy(oy + b + rng.uniform(-m, m))) for a, b in ((0, 0), (w, 0), (w, h), (0, h))]
+        f = [X.fpt(p) for p in q2]
+        if not all(X.orient(f[i - 2], f[i - 1], f[i]) > 0 for i in range(4)):
+            continue
+        fk, fr, o = frames(rng)
+        q3 = [G.embed(fr, o, p) for p in q2]
+        c = Mesh3D._quad_centroid([P3(p) for p in q3])
+        cases.append('c3 (Mesh3D__quad_centroid qsqrt_exec %s) %s' % (core.coq_list([core.v3(p) for p in q3]), core.v3((c.x, c.y, c.z))))
+        meta.append(('Mesh3D._quad_centroid', q3))
+        a = Mesh2D._get_area([P2(p) for p in q2])
+        cases.append('closeq (Mesh2D__get_area %s) %s' % (core.coq_list([core.v2(p) for p in q2]), core.q(a)))
+        meta.append(('Mesh2D._get_area', q2))
+    pre = ('Definition closeq (a b : Q) : bool := Qle_bool (Qabs (a - b)) (1 # 100000000).\n'
+           'Definition c3 (a b : V3) : bool := closeq (v3x a) (v3x b) && closeq (v3y a) (v3y b) && closeq (v3z a) (v3z b).\n')
+    res = core.run_cases('C16_corr', ['Base', 'QGeom', 'G0_vec', 'G12_mesh'], pre, cases)
+    ctx.corr_cases += len(cases)
+    for ok, mm in zip(res, meta):
+        if ok is not True:
+            ctx.corr_fail.append({'function': mm[0], 'input': repr(mm[1:]),
+                                  'result': 'generated definition and implementation differ' if ok is False else 'model evaluation failed'})
